@@ -487,6 +487,7 @@ pub fn c03(big: bool) -> BoxedStrategy<Case> {
         vec![
             (12, msg_op(1, 1, ctx_work(3, 2, 3))),
             (8, (any::<u8>(), 0u8..4).prop_map(|(stream, n)| ClientOp::Feed { stream, n }).boxed()),
+            (1, (any::<u8>(), 90u8..140).prop_map(|(stream, n)| ClientOp::Feed { stream, n }).boxed()),
             (2, any::<u8>().prop_map(|stream| ClientOp::EndStream { stream }).boxed()),
         ],
     );
